@@ -1,0 +1,24 @@
+//go:build verif
+
+package verifhook
+
+import "sync/atomic"
+
+var pointNFn atomic.Pointer[func(string, int)]
+
+// SetPointN installs the callback run at every PointN (nil removes it).
+func SetPointN(f func(string, int)) {
+	if f == nil {
+		pointNFn.Store(nil)
+		return
+	}
+	pointNFn.Store(&f)
+}
+
+// PointN marks a named point of a code path that carries an integer argument
+// (an index, a count): the installed callback may block (schedule control) or record.
+func PointN(name string, n int) {
+	if f := pointNFn.Load(); f != nil {
+		(*f)(name, n)
+	}
+}
